@@ -12,7 +12,7 @@ RULE = ('streams produced by the independent nondeterministic reference encoder 
         '<= 2 trailing ASCII codewords rule; Base256 with 1-/2-byte length and running to the end of the symbol), Macro 05/06 and FNC1 '
         'prefixes, padding to a real symbol capacity; every stream is first validated by the independent decoder refdec.py; '
         'non-trivial = stream with at least one non-ASCII run')
-THEOREMS = 'C04_ascii_base256, C04_randomisers'
+THEOREMS = 'C04_scripts, C04_randomisers, C04_c40_tables'
 ASSUMPTIONS = ['refenc.py / refdec.py are independent readings of ISO/IEC 16022 5.2 (each stream is accepted by both before use)']
 
 
@@ -37,7 +37,45 @@ def gen_cases(rng, tier, ctx):
             exp = (gen.H05 if prefix[0] == 236 else gen.H06) + exp + gen.TRAIL
         cs.append({'line': 'decode_data %s' % fmt_list(cw), 'cat': 'gen-' + (script[-1][0] + '-' + script[-1][2] if script else 'empty'),
                    'expect': exp, 'nonascii': any(m != 'Ascii' for m, _, _ in script)})
+    cs += constant_streams(rng, tier)
     return cs
+
+
+def constant_streams(rng, tier):
+    """streams on the constants of the decoder: Base256 fields of the lengths where the length field changes form, with
+    explicit length or running to the end, between ASCII runs; built directly from the standard"""
+    caps = sorted(set(r['data'] for r in common.spec_by_index()))
+    out = []
+    lens = [0, 1, 2, 248, 249, 250, 251, 252, 499, 500, 501, 750, 1000, 1500, 1554, 1555]
+    if tier != 'quick':
+        lens += [253, 498, 502, 749, 751, 999, 1001, 1249, 1250, 1251, 1499, 1501, 1553]
+    for L in lens:
+        for pre, post in (([], []), ([75], [101, 110, 100]), ([49, 50], [])):
+            for explicit in (True, False):
+                if L == 0 and explicit:
+                    continue
+                body = [rng.below(256) for _ in range(L)]
+                cw = refenc.ascii_items(pre)
+                cw.append(231)
+                field = ([L] if L < 250 else [L // 250 + 249, L % 250]) if explicit else [0]
+                for v in field + body:
+                    cw.append(refenc.rand255(v, len(cw) + 1))
+                exp = pre + body
+                if explicit:
+                    cw += refenc.ascii_items(post)
+                    exp = exp + post
+                    fits = [c for c in caps if c >= len(cw)]
+                    if not fits:
+                        continue
+                    cw = refenc.pad(cw, fits[0] if rng.chance(1, 2) else len(cw))
+                elif len(cw) > 1558:
+                    continue
+                r = refdec.decode(cw)
+                if r['error'] or list(r['data']) != exp:
+                    continue        # not a stream both independent readings agree on
+                out.append({'line': 'decode_data %s' % fmt_list(cw), 'cat': 'b256-length-' + ('explicit' if explicit else 'to-end'),
+                            'expect': exp, 'nonascii': True})
+    return out
 
 
 def check_impl(c, out, ctx, prof):
